@@ -178,6 +178,15 @@ func (w *World) kill(c int, err error) {
 }
 
 func (w *World) Recv(c int, r *wire.Req) {
+	if r.Kind == "pingResp" && r.PingRef > 0 {
+		// replayable form first, then the resolved literal id
+		w.emit("Q recv %d pingResp @%d", c, r.PingRef)
+		if ps := w.know.pings[c]; r.PingRef <= len(ps) {
+			r.Rid = ps[r.PingRef-1]
+		} else {
+			r.Rid = 4000000000 + uint32(r.PingRef) // never issued
+		}
+	}
 	w.logEvent(fmt.Sprintf("recv %d %s", c, r.Tokens()))
 	cs := w.conns[c]
 	if cs == nil || !cs.alive {
